@@ -49,6 +49,11 @@ def main(args):
         if exe is None:
             print("UNDECIDED harness does not compile: %s" % info.get("error", "")[-500:])
             return 2
+        if hit.get("kind") == "viable":
+            import viable
+            r = viable.one(open(u["src"]).read(), exe, info, hit["input"])
+            print("replay unit=%s input=%r (first-error check) -> %s" % (unit, hit["input"], json.dumps(r)))
+            return 1 if r.get("status") == "fail" else 0
         r = falsify.run_one(exe, hit["input"])
         print("replay unit=%s input=%r tokens=%s -> %s" % (unit, hit["input"], [info["chars"].get(c, "?") for c in hit["input"]], json.dumps(r)))
         return 1 if r.get("status") == "fail" else 0
